@@ -139,6 +139,12 @@ def build(case):
         spec.notes['cluster_probes'] = True
     if spec.raw is not None and rng.random() < 0.3:
         spec.notes['raw_symlink'] = True         # raw files reached through symbolic links
+    if spec.raw is not None and not spec.raw_parts and rng.random() < 0.15 and spec.n_spikes > 6:
+        cut = int(spec.spike_samples[spec.n_spikes * 3 // 4])
+        if cut > 30:
+            spec.raw = spec.raw[:cut]             # the raw file ends before the last spikes
+    if rng.random() < 0.25:
+        spec.notes['ks2_templates_ind'] = True     # a Kilosort-2 templates_ind.npy next to the dense templates (ignored by phylib)
     if rng.random() < 0.2:
         spec.notes['template_scaling'] = [20.0, 0.5][int(rng.integers(0, 2))]   # display-only option of params.py
     if spec.raw is None and rng.random() < 0.3:
